@@ -10,6 +10,7 @@ import Driver.TreeEng
 import Driver.CtrlEng
 import Driver.ListerEng
 import Driver.LinEng
+import Driver.JoinEng
 open Driver
 
 partial def loopFilter (h : IO.FS.Stream) (out : IO.FS.Stream) (univ : List KC.Obj) : IO Unit := do
@@ -83,12 +84,25 @@ partial def loopLin (h : IO.FS.Stream) (out : IO.FS.Stream) (st : NState) : IO U
     out.putStrLn "bad parse"
     loopLin h out st
 
+partial def loopJoin (h : IO.FS.Stream) (out : IO.FS.Stream) (st : JState) : IO Unit := do
+  let line ← h.getLine
+  if line.isEmpty then return ()
+  match parseLine line with
+  | some e =>
+    let (st', o) := joinLine st e
+    out.putStrLn o
+    loopJoin h out st'
+  | none =>
+    out.putStrLn "bad parse"
+    loopJoin h out st
+
 def main (args : List String) : IO UInt32 := do
   let stdin ← IO.getStdin
   let stdout ← IO.getStdout
   match args with
   | ["filter"] => loopFilter stdin stdout []; return 0
   | ["cache"] => loopCache false stdin stdout {}; return 0
+  | ["join"] => loopJoin stdin stdout {}; return 0
   | ["lin"] => loopLin stdin stdout {}; return 0
   | ["lister"] => loopLister stdin stdout {}; return 0
   | ["ctrl"] => loopCtrl stdin stdout {}; return 0
